@@ -63,4 +63,5 @@ func OpaqueValidSemver(v string) bool { return true }
 //@   checks[C20] failure-reported-and-no-install: implies(called(UpdateTo) && resultOf(UpdateTo, 0) != nil, err != nil && fsWrites() == old(fsWrites()))
 //@   checks[C20] detect-failure-reported: implies(called(getLatestVersionFromGitHub) && resultOf(getLatestVersionFromGitHub, 1) != nil, err != nil && fsWrites() == old(fsWrites()))
 //@   checks[C20] replaces-only-the-executable: implies(fsWrites() > old(fsWrites()) && executablePath != "", lastWritePath() == executablePath)
+//@   checks[C20] the-target-is-the-given-or-the-running-executable: implies(called(UpdateTo) && executablePath != "", argOf(UpdateTo, 3) == executablePath) && implies(called(UpdateTo) && executablePath == "", called(Executable) && argOf(UpdateTo, 3) == resultOf(Executable, 0))
 //@   ensures[C20] install-is-checksum-validated: implies(fsWrites() > old(fsWrites()), OpaqueInstallValidated(fsWrites()))
